@@ -21,7 +21,7 @@
 from dali.exceptions import DALISequenceError, ProgramShortAddressFailure
 
 from dali.gear.general import *
-from dali.address import Broadcast, Short
+from dali.address import Broadcast, Group, Short
 
 
 class sleep:
@@ -125,8 +125,14 @@ def SetGroups(addr, groups):
         for i in existing - groups:
             yield RemoveFromGroup(addr, i)
     else:
-        # Can't read from multiple devices: must write every group
-        for i in range(0, 16):
+        # Can't read from multiple devices: must write every group.
+        # When addressing a group, leave that group until last: gear
+        # removed from it stop receiving the remaining commands.
+        order = list(range(0, 16))
+        if isinstance(addr, Group):
+            order.remove(addr.group)
+            order.append(addr.group)
+        for i in order:
             if i in groups:
                 yield AddToGroup(addr, i)
             else:
